@@ -89,8 +89,20 @@ def run_cases(ck: Check, n_refine: int, n_storage: int):
             if rng.random() < 0.5:
                 field.data += 0.01 * np.cos(np.arange(field.data.size).reshape(field.data.shape))
             minr = rng.choice([0, 0, 3.2])
-            serial = ia.locate_droplets(field, refine=True, minimal_radius=minr, num_processes=1)
-            again = ia.locate_droplets(field, refine=True, minimal_radius=minr, num_processes=1)
+            rargs = None
+            if k % 3 == 1:
+                # a single-precision image with automatically determined intensity levels: every process must do the same arithmetic
+                field = ScalarField(grid, field.data.astype(np.float32), dtype=np.float32)
+                rargs = {"vmin": None, "vmax": None}
+                ck.count("float32_field_automatic_levels")
+            _loc = ia.locate_droplets
+            if rargs is not None:
+                import functools
+                ia_locate = functools.partial(_loc, refine_args=rargs)
+            else:
+                ia_locate = _loc
+            serial = ia_locate(field, refine=True, minimal_radius=minr, num_processes=1)
+            again = ia_locate(field, refine=True, minimal_radius=minr, num_processes=1)
             case = {"kind": "refine", "candidates": ncand, "minimal_radius": minr, "droplets": [d.data.tolist() for d in drops]}
             ck.case(("refine", k, field.data.tobytes()))
             if em_key(serial) != em_key(again):
@@ -99,7 +111,7 @@ def run_cases(ck: Check, n_refine: int, n_storage: int):
             coarse = {"least_squares_params": {"max_nfev": 2, "xtol": 1e-2}}
             ia.locate_droplets(field, refine=True, refine_args=coarse, minimal_radius=minr, num_processes=rng.choice([1, 2]))
             ia.locate_droplets(field, refine=True, refine_args={"tolerance": 1e-3}, minimal_radius=minr, num_processes=1)
-            again2 = ia.locate_droplets(field, refine=True, minimal_radius=minr, num_processes=1)
+            again2 = ia_locate(field, refine=True, minimal_radius=minr, num_processes=1)
             ck.count("repeat_after_other_settings")
             if em_key(serial) != em_key(again2):
                 ck.fail("repeating the analysis after an analysis with other solver settings gives a different result (state leaks between calls)",
@@ -114,7 +126,7 @@ def run_cases(ck: Check, n_refine: int, n_storage: int):
                 open(_LOG, "w").close()
                 ia.refine_droplet = delayed_refine
                 try:
-                    par = ia.locate_droplets(field, refine=True, minimal_radius=minr, num_processes=procs)
+                    par = ia.locate_droplets(field, refine=True, minimal_radius=minr, num_processes=procs, **({"refine_args": rargs} if rargs else {}))
                 finally:
                     ia.refine_droplet = _orig_refine
                 order = [int(l.split()[0]) for l in open(_LOG).read().split("\n") if l]
@@ -145,7 +157,8 @@ def run_cases(ck: Check, n_refine: int, n_storage: int):
                 fld = Emulsion(drops).get_phasefield(grid) if drops else ScalarField(grid, 0.0)
                 fld.data += 1e-3 * (f + 1)  # make frames distinguishable
                 fields.append(fld)
-                storage.append(fld, float(f) * 0.5)
+                # (time stamps may repeat: a restarted run appended to the same storage, the final state written twice)
+                storage.append(fld, float(f // 2 if k % 2 == 1 else f) * 0.5)
             kw = dict(threshold=rng.choice([0.5, "auto"]), minimal_radius=rng.choice([0, 1.0]))
             serial = EmulsionTimeCourse.from_storage(storage, num_processes=1, progress=False, **kw)
             key_serial = [(t, em_key(e)) for t, e in zip(serial.times, serial.emulsions)]
